@@ -362,6 +362,74 @@ theorem idx_finalizePacket {s s' : St} {k : Bytes} (h4 : Inv04 s) (h : IdxInv s)
         exact IdxInv.setFinalized hD _ rfl (PktOk.congr (s := logRelease (releaseEffect s p).1 p (some p.rollappId) true) rfl rfl
           (PktOk.of_fields hP rfl rfl rfl rfl rfl rfl))
 
+theorem iframe_sendOpen {s s' : St} {a c d amt} (e : sendOpen s a c d amt = .ok s') : IFrame s s' := by
+  unfold sendOpen at e
+  split at e
+  · cases e
+  · split at e
+    · cases e
+    · split at e
+      · cases e
+      · cases e
+        unfold recordSent lockCoins
+        split <;> exact ⟨rfl, rfl, rfl, rfl⟩
+
+theorem idx_recvAuth {s0 : St} (c seq ph : Nat) (d : RecvData) (h0 : IdxInv s0) (hnp : ¬ pendL s0.packets (true, c, seq))
+    (hph : ph < 2 ^ 64) (hseq : seq < 2 ^ 64) : IdxInv (recvAuth s0 c seq ph d).1 := by
+  have hfail : IdxInv (recvFail s0 c seq).1 := IdxInv.of_frame (iframe_writeAck s0 c seq false) h0
+  unfold recvAuth
+  split
+  · exact hfail
+  · rename_i ra hra
+    split
+    · exact hfail
+    · split
+      · exact hfail
+      · rename_i tgt htgt
+        split
+        · unfold recvPass
+          split
+          · exact hfail
+          · rename_i s1 hi
+            exact IdxInv.of_frame (((IFrame.ofD (frame_icsRecv hi)).trans (iframe_logRelease _ _ _ _)).trans (iframe_writeAck _ _ _ _)) h0
+        · rename_i hdel
+          unfold recvDelay
+          split
+          · exact hfail
+          · split
+            · exact hfail
+            · rename_i s2 he
+              refine IdxInv.of_frame (IFrame.ofD (frame_eibcOnRecv he)) ?_
+              -- the channel belongs to a rollapp
+              obtain ⟨rid, hrid⟩ : ∃ rid, ra = some rid := by
+                cases ra with
+                | none => simp at hdel
+                | some r => exact ⟨r, rfl⟩
+              subst hrid
+              have hP : PktOk s0 (mkRecvPacket s0 c seq ph ((some rid).getD []) d tgt) := by
+                refine ⟨hra, ?_, hph, hseq⟩
+                simp [mkRecvPacket]
+              apply IdxInv.record h0 _ rfl hP
+              intro q hq hk
+              obtain ⟨hu, hst⟩ := key_determines_uid h0.cfg hP (h0.pk q hq) hk
+              exact hnp ⟨q, hq, hst, hu⟩
+
+theorem idx_recvForward {s0 : St} (c seq ph : Nat) (d : RecvData) (k : Nat) (h0 : IdxInv s0) (hnp : ¬ pendL s0.packets (true, c, seq))
+    (hph : ph < 2 ^ 64) (hseq : seq < 2 ^ 64) : IdxInv (recvForward s0 c seq ph d k).1 := by
+  have hfail : IdxInv (recvFail s0 c seq).1 := IdxInv.of_frame (iframe_writeAck s0 c seq false) h0
+  unfold recvForward
+  have ha := idx_recvAuth c seq ph { d with target := some (pfmAddr c), memo := .none } h0 hnp hph hseq
+  split
+  · rename_i s1 hr
+    rw [hr] at ha
+    split
+    · rename_i s2 hs
+      have f1 : IFrame s1 { s1 with acks := s0.acks } := ⟨rfl, rfl, rfl, rfl⟩
+      have f2 : IFrame s2 (markFwd s2 k (getNextSeq s1 k) (c, seq)) := ⟨rfl, rfl, rfl, rfl⟩
+      exact IdxInv.of_frame ((f1.trans (iframe_sendOpen (sendTransfer_ok hs))).trans f2) ha
+    · exact hfail
+  · exact hfail
+
 theorem idx_recvOpen {s : St} (c seq ph : Nat) (d : RecvData) (h4 : Inv04 s) (h : IdxInv s) (hph : ph < 2 ^ 64) (hseq : seq < 2 ^ 64) :
     IdxInv (recvOpen s c seq ph d).1 := by
   unfold recvOpen
@@ -370,47 +438,10 @@ theorem idx_recvOpen {s : St} (c seq ph : Nat) (d : RecvData) (h4 : Inv04 s) (h 
   · rename_i hc
     have hnr : (c, seq) ∉ s.receipts := by simpa using hc
     have hnp : ¬ pendL s.packets (true, c, seq) := fun hp => hnr (InvF.rcv h4 c seq (Or.inr hp))
-    generalize hs0 : ({ s with receipts := s.receipts ++ [(c, seq)] } : St) = s0
-    have f0 : IFrame s s0 := by subst hs0; exact ⟨rfl, rfl, rfl, rfl⟩
-    have h0 : IdxInv s0 := IdxInv.of_frame f0 h
-    have hfail : IdxInv (recvFail s0 c seq).1 := IdxInv.of_frame (iframe_writeAck s0 c seq false) h0
-    unfold recvAuth
+    have h0 : IdxInv { s with receipts := s.receipts ++ [(c, seq)] } := IdxInv.of_frame (iframe_receipts s (c, seq)) h
     split
-    · exact hfail
-    · rename_i ra hra
-      split
-      · exact hfail
-      · split
-        · exact hfail
-        · rename_i tgt htgt
-          split
-          · unfold recvPass
-            split
-            · exact hfail
-            · rename_i s1 hi
-              exact IdxInv.of_frame (((IFrame.ofD (frame_icsRecv hi)).trans (iframe_logRelease _ _ _ _)).trans (iframe_writeAck _ _ _ _)) h0
-          · rename_i hdel
-            unfold recvDelay
-            split
-            · exact hfail
-            · split
-              · exact hfail
-              · rename_i s2 he
-                refine IdxInv.of_frame (IFrame.ofD (frame_eibcOnRecv he)) ?_
-                -- the channel belongs to a rollapp
-                obtain ⟨rid, hrid⟩ : ∃ rid, ra = some rid := by
-                  cases ra with
-                  | none => simp at hdel
-                  | some r => exact ⟨r, rfl⟩
-                subst hrid
-                have hP : PktOk s0 (mkRecvPacket s0 c seq ph ((some rid).getD []) d tgt) := by
-                  refine ⟨hra, ?_, hph, hseq⟩
-                  simp [mkRecvPacket]
-                apply IdxInv.record h0 _ rfl hP
-                intro q hq hk
-                obtain ⟨hu, hst⟩ := key_determines_uid h0.cfg hP (h0.pk q hq) hk
-                rw [f0.packets] at hq
-                exact hnp ⟨q, hq, hst, hu⟩
+    · exact idx_recvForward c seq ph d _ h0 hnp hph hseq
+    · exact idx_recvAuth c seq ph d h0 hnp hph hseq
 
 theorem idx_ackOpen {s s' : St} {c seq ph : Nat} {isTimeout isErr : Bool} (h4 : Inv04 s) (h : IdxInv s)
     (hph : ph < 2 ^ 64) (hseq : seq < 2 ^ 64) (ha : ackOpen s c seq ph isTimeout isErr = .ok (some s')) : IdxInv s' := by
